@@ -21,11 +21,12 @@ Ceiling
   `ref_own_delta_when_no_retarget` : without retarget the delta is the target's own delta.
 * `ref_retarget_samples` : a retarget to a valid target evaluates every consumer in that cycle, with
   `modified`, the new target's value, scalar delta = value, keyed shapes as a sampled transition.
-* `ref_retarget_samples_keyed_partial` : for sets / dictionaries the reported added / removed keys are
-  exactly (new contents \ old contents) / (old contents \ new contents), all live entries sampled -
-  PARTIAL: under `NoPendingErase` (the previous target ticked in this very cycle or holds no
-  pending-erase slot of an older tick).  The full statement `RetargetKeyedFull` is kept visible and
-  is REFUTED in the model (`ref_retarget_keyed_full_refuted`), as on the implementation (C13-B).
+* `ref_retarget_samples_keyed` : `RetargetKeyedFull` - for sets / dictionaries the reported added /
+  removed keys are exactly (new contents \ old contents) / (old contents \ new contents) and all live
+  entries are sampled, for every history.  This is about the code WITH the fix of finding C13-B
+  (`/verif/fixes/c13_b.patch`); before the fix the statement needed "the previous target holds no
+  pending-erase slot of an older tick" and was refuted without it - `Lemmas/RefLink.lean` keeps the
+  pre-fix published-key test `pubRPreFix` and `pubRPreFix_reports_stale` as the record of why.
 * `ref_delta_value_keyed_refuted` : `delta_value()` of a keyed shape is not the sampled difference
   (finding C13-A); the key accessors are.
 -/
@@ -578,15 +579,10 @@ def oldKeys (s : State) : List Int :=
   | some o => keys (s.targets o).items
   | none => []
 
-/-- the previously selected target holds no pending-erase slot of an older tick, or ticks in this cycle
-(a tick flushes the pending-erase slots of the previous mutation) -/
-def NoPendingErase (s : State) (inp : CycleIn) : Prop :=
-  ∀ o, s.ref = some o →
-    (s.targets o).removed = [] ∨
-      ∃ d, o < s.nT ∧ inp.ticks o = some d ∧ (applyDelta s.shape (s.targets o) (s.now + 1) d).2 = true
-
-/-- the full statement for keyed shapes: the key accessors report exactly the difference between the old
-and the new contents, and every live entry of the new target is sampled as modified -/
+/-- the statement for keyed shapes: in the cycle of a retarget to a valid target the key accessors report
+exactly the difference between the contents of the previously selected target (as of the end of the
+previous cycle) and the contents of the new one, and every live entry of the new target is sampled as
+modified.  The only hypothesis besides reachability (`Inv`) is the generator discipline `Delta.wf`. -/
 def RetargetKeyedFull : Prop :=
   ∀ (s : State) (inp : CycleIn) (i c : Nat) (v : View), Inv s → s.shape ≠ .ts →
     (∀ t d, inp.ticks t = some d → d.wf) → inp.sel = some i → s.ref ≠ some i →
@@ -643,7 +639,7 @@ theorem pub_congr {a b : Target} (h : a.data = b.data) (now : Nat) (k : Int) :
 /-- the published keys of the previous target, as the accessors compute them in the retarget cycle,
 are the keys it held before this cycle -/
 theorem prev_published {s : State} (h : Inv s) (inp : CycleIn) (hs : s.shape ≠ .ts)
-    (hw : ∀ t d, inp.ticks t = some d → d.wf) (hp : NoPendingErase s inp) (k : Int) :
+    (hw : ∀ t d, inp.ticks t = some d → d.wf) (k : Int) :
     let old : Target := prevTarget (cycleMid s inp) s.ref
     (k ∈ pubR old (s.now + 1) ↔ k ∈ oldKeys s) ∧ (pubA old (s.now + 1) k = true ↔ k ∈ oldKeys s) := by
   cases hr : s.ref with
@@ -654,39 +650,29 @@ theorem prev_published {s : State} (h : Inv s) (inp : CycleIn) (hs : s.shape ≠
       rw [cycleMid_eq]; exact select_data _ _ o
     rw [(pub_congr hd _ k).1, (pub_congr hd _ k).2, afterTicks_target]
     have hlt : (s.targets o).lmt ≠ s.now + 1 := by have := h.lmt_le o; omega
-    have plain : (s.targets o).removed = [] →
-        (k ∈ pubR (s.targets o) (s.now + 1) ↔ k ∈ keys (s.targets o).items) ∧
+    -- a target that does not tick in this cycle: only its live keys are published
+    have plain : (k ∈ pubR (s.targets o) (s.now + 1) ↔ k ∈ keys (s.targets o).items) ∧
         (pubA (s.targets o) (s.now + 1) k = true ↔ k ∈ keys (s.targets o).items) := by
-      intro hrem
-      rw [mem_pubR, pubA_iff, hrem]
+      rw [mem_pubR, pubA_iff]
       simp [hlt]
-    rcases hp o hr with hrem | ⟨d, hon, hd', hb⟩
-    · -- no pending-erase slot: whether or not it ticks now
-      by_cases hon : o < s.nT
-      · rw [if_pos hon]
-        cases hd' : inp.ticks o with
-        | none => simp only [tickedTarget]; exact plain hrem
-        | some d =>
-          simp only [tickedTarget]
-          cases hb : (applyDelta s.shape (s.targets o) (s.now + 1) d).2
-          · rw [applyDelta_not_ticked _ _ _ _ hb]; exact plain hrem
-          · exact applyDelta_keys_spec s.shape hs _ _ d (hw o d hd') hb k
-      · rw [if_neg hon]; exact plain hrem
-    · rw [if_pos hon, hd']
-      simp only [tickedTarget]
-      exact applyDelta_keys_spec s.shape hs _ _ d (hw o d hd') hb k
+    by_cases hon : o < s.nT
+    · rw [if_pos hon]
+      cases hd' : inp.ticks o with
+      | none => simp only [tickedTarget]; exact plain
+      | some d =>
+        simp only [tickedTarget]
+        cases hb : (applyDelta s.shape (s.targets o) (s.now + 1) d).2
+        · rw [applyDelta_not_ticked _ _ _ _ hb]; exact plain
+        · exact applyDelta_keys_spec s.shape hs _ _ d (hw o d hd') hb k
+    · rw [if_neg hon]; exact plain
 
-/-- **ref_retarget_samples_keyed_partial**: for sets and dictionaries, in the cycle of a retarget to a
-valid target, the key accessors report exactly the difference between the contents of the previously
-selected target (as of the end of the previous cycle) and the contents of the new one, and every live
-entry of the new target is sampled as modified.  PARTIAL: needs `NoPendingErase`. -/
-theorem ref_retarget_samples_keyed_partial {s : State} (h : Inv s) (inp : CycleIn) (hs : s.shape ≠ .ts)
-    (hw : ∀ t d, inp.ticks t = some d → d.wf) (hp : NoPendingErase s inp)
-    {i : Nat} (hsel : inp.sel = some i) (hne : s.ref ≠ some i)
-    (hv : ((cycle s inp).1.targets i).valid = true) {c : Nat} {v : View} (hcv : (c, v) ∈ (cycle s inp).2) :
-    (∀ k, k ∈ v.added ↔ k ∈ keys ((cycle s inp).1.targets i).items ∧ k ∉ oldKeys s) ∧
-    (∀ k, k ∈ v.removed ↔ k ∈ oldKeys s ∧ k ∉ keys ((cycle s inp).1.targets i).items) ∧
-    v.modk = ((cycle s inp).1.targets i).items := by
+/-- **ref_retarget_samples_keyed** (`RetargetKeyedFull`): for sets and dictionaries, in the cycle of a
+retarget to a valid target, the key accessors report exactly the difference between the contents of the
+previously selected target (as of the end of the previous cycle) and the contents of the new one, and
+every live entry of the new target is sampled as modified - for every reachable state and every cycle
+input, whatever the old target did earlier (removals in earlier cycles included). -/
+theorem ref_retarget_samples_keyed : RetargetKeyedFull := by
+  intro s inp i c v h hs hw hsel hne hv hcv
   obtain ⟨hc, rfl⟩ := mem_obs.mp hcv
   have fm := cycleMid_frame s inp
   have f := afterTicks_frame s inp
@@ -708,7 +694,7 @@ theorem ref_retarget_samples_keyed_partial {s : State} (h : Inv s) (inp : CycleI
   have hsm : (cycleMid s inp).shape ≠ .ts := by rw [fm.1]; exact hs
   obtain ⟨_, va, vr, vm⟩ := view_trans lb hsm lt
   rw [lp, fm.2.2.2] at va vr
-  have key := fun k => prev_published h inp hs hw hp k
+  have key := fun k => prev_published h inp hs hw k
   show (∀ k, k ∈ (view (cycleMid s inp) c).added ↔ k ∈ keys ((cycleMid s inp).targets i).items ∧ k ∉ oldKeys s) ∧
     (∀ k, k ∈ (view (cycleMid s inp) c).removed ↔ k ∈ oldKeys s ∧ k ∉ keys ((cycleMid s inp).targets i).items) ∧
     (view (cycleMid s inp) c).modk = ((cycleMid s inp).targets i).items
@@ -719,7 +705,7 @@ theorem ref_retarget_samples_keyed_partial {s : State} (h : Inv s) (inp : CycleI
   · rw [vr, List.mem_filter, (key k).1]
     simp [hasKey_false_iff]
 
-/-! ### the unrestricted statements do not hold (findings C13-B, C13-A) -/
+/-! ### `delta_value()` is not the sampled difference (finding C13-A) -/
 
 theorem reach_run {cfg : Cfg} {s : State} (h : Reach cfg s) (is : List CycleIn) : Reach cfg (run s is).1 := by
   induction is generalizing s with
@@ -731,7 +717,7 @@ def only (t : Nat) (d : Delta) : Nat → Option Delta := fun u => if u = t then 
 
 def cfgTss : Cfg := { shape := .tss, nC := 1, nT := 2 }
 
-/-- history of C13-B: `a = {1,2}` selected; `a` removes 2; `b = {5}`; an idle cycle -/
+/-- history of the former finding C13-B: `a = {1,2}` selected; `a` removes 2; `b = {5}`; an idle cycle -/
 def histB : List CycleIn :=
   [ { sel := some 0, ticks := only 0 { sets := [(1, 0), (2, 0)] } },
     { ticks := only 0 { dels := [2] } },
@@ -740,18 +726,10 @@ def histB : List CycleIn :=
 
 def stB : State := (run (init cfgTss) histB).1
 
-/-- **finding C13-B in the model**: after `histB` the consumer holds `{1}`; retargeting to `b = {5}` reports
-the keys `1` AND `2` as removed - `2` left the old target three cycles earlier.  The side condition of
-`ref_retarget_samples_keyed_partial` cannot be dropped. -/
-theorem ref_retarget_keyed_full_refuted : ¬ RetargetKeyedFull := by
-  intro h
-  have hr : Reach cfgTss stB := reach_run Reach.init histB
-  have hobs : (0, view (cycleMid stB { sel := some 1 }) 0) ∈ (cycle stB { sel := some 1 }).2 :=
-    mem_obs.mpr ⟨mem_evaluated.mpr ⟨by decide, by decide, Or.inr (by decide)⟩, rfl⟩
-  have := h stB { sel := some 1 } 1 0 _ (ref_subscription_inv hr) (by decide) (fun t d e => by cases e) rfl
-    (by decide) (by decide) hobs
-  have h2 := (this.2.1 2).mp (by decide)
-  exact absurd h2.1 (by decide)
+/-- the replay of the former finding C13-B now reads what the theorem says: retargeting from `a = {1}`
+(which removed 2 three cycles earlier) to `b = {5}` reports `+5 -1`, not `-2` -/
+example : (view (cycleMid stB { sel := some 1 }) 0).added = [5] ∧
+    (view (cycleMid stB { sel := some 1 }) 0).removed = [1] := by decide
 
 /-- "`delta_value()` read through a reference in a retarget cycle is the reported difference" -/
 def DeltaValueIsDifference : Prop :=
@@ -787,24 +765,18 @@ example : ∃ s inp, Reach cfgTss s ∧ s.sched = [] ∧ s.ref = some 0 ∧ (inp
        rw [h0] at e; cases e; rfl,
     by decide, by decide⟩
 
-/-- the hypotheses of `ref_retarget_samples_keyed_partial` (retarget to a valid target, well-formed
-deltas, `NoPendingErase` because the old target ticks in this very cycle) are met by a concrete cycle
-in which old and new target tick together with the retarget -/
+/-- the hypotheses of `ref_retarget_samples_keyed` (retarget to a valid target, well-formed deltas) are met
+by a concrete cycle in which the old target - still holding a pending-erase slot of an older cycle - and the
+new target tick together with the retarget -/
 example : ∃ s inp, Reach cfgTss s ∧ s.shape ≠ .ts ∧ (∀ t d, inp.ticks t = some d → d.wf) ∧
-    NoPendingErase s inp ∧ inp.sel = some 1 ∧ s.ref ≠ some 1 ∧ ((cycle s inp).1.targets 1).valid = true ∧
-    (cycle s inp).2.length = 1 := by
+    (s.targets 0).removed ≠ [] ∧ inp.sel = some 1 ∧ s.ref ≠ some 1 ∧
+    ((cycle s inp).1.targets 1).valid = true ∧ (cycle s inp).2.length = 1 := by
   refine ⟨stB, { sel := some 1, ticks := fun u => if u = 0 then some { sets := [(7, 0)], dels := [1] }
                                                    else some { dels := [5] } },
-    reach_run Reach.init _, by decide, ?_, ?_, rfl, by decide, by decide, by decide⟩
-  · intro t d e k hk
-    by_cases ht : t = 0
-    · subst ht; simp at e; subst e; simp at hk; subst hk; decide
-    · simp [ht] at e; subst e; simp at hk; subst hk; decide
-  · intro o ho
-    have : o = 0 := by
-      have : stB.ref = some 0 := by decide
-      rw [this] at ho; exact (Option.some.inj ho).symm
-    subst this
-    exact Or.inr ⟨{ sets := [(7, 0)], dels := [1] }, by decide, rfl, by decide⟩
+    reach_run Reach.init _, by decide, ?_, by decide, rfl, by decide, by decide, by decide⟩
+  intro t d e k hk
+  by_cases ht : t = 0
+  · subst ht; simp at e; subst e; simp at hk; subst hk; decide
+  · simp [ht] at e; subst e; simp at hk; subst hk; decide
 
 end HgVerif.RefLink
